@@ -33,7 +33,9 @@ type Schedule struct {
 	Fam   string         `json:"fam,omitempty"`
 	Frag  map[string]int `json:"frag,omitempty"`
 	Seed  uint64         `json:"seed,omitempty"`
-	Steps []Step         `json:"steps"`
+	// NoKeys: parties created without a long-term key
+	NoKeys []string `json:"nokeys,omitempty"`
+	Steps  []Step   `json:"steps"`
 }
 
 var scanAll bool
@@ -53,6 +55,12 @@ func newWorld(sc *Schedule, seed uint64, out *os.File) *world.World {
 		w.AddParty(n, peer, world.PolicyFromBits(bits), sc.Ver[n])
 		if z := sc.Frag[n]; z > 0 {
 			w.SetFragSize(w.P[n], z)
+		}
+		for _, nk := range sc.NoKeys {
+			if nk == n {
+				w.P[n].Conv.SetOurKeys(nil)
+				w.P[n].NoKeys = true
+			}
 		}
 	}
 	fam := sc.Fam
@@ -543,6 +551,43 @@ func genSchedule(rng *rand.Rand, family string, depth int) *Schedule {
 		add(Step{A: "Send", P: "B", T: 9002})
 		add(Step{A: "Deliver", P: "B"})
 		add(Step{A: "Deliver", P: "A"})
+		return sc
+	case "nokeys":
+		// one side (sometimes both) has no long-term key: queries, texts, repeated starts from either
+		// side, ends; nothing may crash and the side that has a key must behave as specified
+		sc.Pol["A"] |= rng.Intn(16) << 2
+		sc.Pol["B"] |= rng.Intn(16) << 2
+		sc.NoKeys = []string{ps[rng.Intn(2)]}
+		if rng.Intn(6) == 0 {
+			sc.NoKeys = []string{"A", "B"}
+		}
+		for d := 0; d < depth; d++ {
+			p := ps[rng.Intn(2)]
+			switch rng.Intn(10) {
+			case 0, 1:
+				add(Step{A: "Query", P: p})
+			case 2, 3:
+				text++
+				add(Step{A: "Send", P: p, T: text})
+			case 4:
+				add(Step{A: "End", P: p})
+			case 5:
+				add(Step{A: "Tick", P: p})
+			case 6:
+				switch rng.Intn(4) {
+				case 0:
+					add(Step{A: "SMPStart", P: p, S: 1, Q: rng.Intn(2) == 0})
+				case 1:
+					add(Step{A: "SMPAnswer", P: p, S: 1})
+				case 2:
+					add(Step{A: "SMPAbort", P: p})
+				default:
+					add(Step{A: "ExtraKey", P: p})
+				}
+			default:
+				add(Step{A: "Deliver", P: p})
+			}
+		}
 		return sc
 	case "rekey":
 		// traffic that rotates keys and leaves MAC keys awaiting disclosure, then (with messages
